@@ -1,6 +1,25 @@
-import ZCV.Model.Matcher
+import ZCV.Lemmas.OverrideBad
+import ZCV.Lemmas.Datatypes
+/-!
+C14 — command-line overrides act like editing the addressed keys in the text.
+
+* the specifier syntax (`addOption`);
+* `loadTreeOv` (the tree-driven loader started with the option bag, `ZCV/Lemmas/OverrideEval.lean`) against the
+  edit specification `ZCV/Spec/Edit.lean`: same configuration, same error, or rejection on both sides;
+* the loader reading TEXT with overrides against `loadTreeOv` on the tree of the text;
+* corollaries: values verbatim, unknown section, key not allowed, unconvertible value.
+
+Two hypotheses recur.  `tyCanon s items`: section headers are spelled as the schema stores type names (true of every
+tree the parser builds, `treeOf_tyCanon`).  `OvsOK ovs`: every path component that has to select a section is a
+basic key (`[a-zA-Z][-._a-zA-Z0-9]*`): the code runs every such component through the `basic-key` datatype and
+refuses the whole load with a syntax error when that fails, even if the component equals a section NAME that is not
+a basic key — the statement of C14 does not say so; see `C14_nonident_component_rejected` and
+`C14_not_ovsOK_rejected` (such override lists are rejected whatever the text).
+-/
 namespace ZCV.Props.C14
-open ZCV ZCV.Cfg
+open ZCV ZCV.Cfg ZCV.Conf
+
+/-! ### the specifier syntax -/
 
 /-- a specifier without `=` is refused when it is added -/
 theorem C14_no_equals_refused (spec : Str) (h : spec.contains '=' = false) :
@@ -24,5 +43,397 @@ theorem C14_wellformed_accepted (spec : Str) (h : spec.contains '=' = true)
                            val := (spec.dropWhile (· != '=')).drop 1 } := by
   unfold addOption
   simp only [h, Bool.not_true, Bool.false_eq_true, ↓reduceIte, he]
+
+/-! ### overrides = edit, then load -/
+
+/-- **Overrides act like the edit** (supplied lines spelled with the normalised key; no assumption on key types).
+    For every family of datatype functions, every schema, every tree with canonical headers and every list of
+    overrides whose section components are basic keys: if the edit of `ZCV/Spec/Edit.lean` is possible, loading the
+    tree with the overrides gives EXACTLY what loading the edited tree gives — the same configuration or the very same
+    error as the matchers raise it (kind, line, url, value: the supplied lines carry line -1 and url
+    `<command-line option>`; the parser, when it reads TEXT, re-stamps errors with the line it is at, which is why the
+    text-level theorem below speaks of outcomes only); if the edit is impossible (an override addresses no section, or
+    its key is refused by the section's key type), the load with overrides is rejected. -/
+theorem C14_override_eq_editNorm (conv : Conv) (s : Schema) (items : List Item) (ovs : List OptItem)
+    (hcan : tyCanon s items = true) (hovs : OvsOK ovs) :
+    (∀ items', editNorm conv s items ovs = .ok items' → loadTreeOv conv s items ovs = loadTree conv s items') ∧
+    (∀ r, editNorm conv s items ovs = .error r → ∃ e, loadTreeOv conv s items ovs = .error e) := by
+  have h := loadTreeOv_editBody conv s false (fun h => by cases h) items ovs hcan hovs
+  unfold editNorm
+  constructor
+  · intro items' he; rw [he] at h; exact h
+  · intro r he; rw [he] at h; exact h
+
+/-- **Overrides act like the edit by hand** (supplied lines carry the key as typed on the command line).
+    Same statement as `C14_override_eq_editNorm` for `edit`, under the hypothesis that the key types the schema uses are
+    idempotent (`KeyIdemOn`; true of the stock key types, `C14_keyIdem_stock`).  The hypothesis cannot be dropped: the
+    code normalises an override key twice (`OptionBag.__init__`, then `BaseMatcher.addValue`), a key line of the text
+    once — see `C14_key_as_given_needs_idempotence`. -/
+theorem C14_override_eq_edit (conv : Conv) (s : Schema) (items : List Item) (ovs : List OptItem)
+    (hidem : KeyIdemOn conv s) (hcan : tyCanon s items = true) (hovs : OvsOK ovs) :
+    (∀ items', edit conv s items ovs = .ok items' → loadTreeOv conv s items ovs = loadTree conv s items') ∧
+    (∀ r, edit conv s items ovs = .error r → ∃ e, loadTreeOv conv s items ovs = .error e) := by
+  have h := loadTreeOv_editBody conv s true (fun _ => hidem) items ovs hcan hovs
+  unfold edit
+  constructor
+  · intro items' he; rw [he] at h; exact h
+  · intro r he; rw [he] at h; exact h
+
+/-- the same in one equation on outcomes: the configuration returned with overrides is the one returned for the
+    edited tree, and there is none iff the edit is impossible or the edited tree is rejected -/
+theorem C14_override_eq_edit_outcome (conv : Conv) (s : Schema) (items : List Item) (ovs : List OptItem)
+    (hidem : KeyIdemOn conv s) (hcan : tyCanon s items = true) (hovs : OvsOK ovs) :
+    (loadTreeOv conv s items ovs).toOption =
+      (edit conv s items ovs).toOption.bind fun items' => (loadTree conv s items').toOption := by
+  obtain ⟨h1, h2⟩ := C14_override_eq_edit conv s items ovs hidem hcan hovs
+  cases he : edit conv s items ovs with
+  | ok items' => rw [h1 items' he]; rfl
+  | error r => obtain ⟨e, h⟩ := h2 r he; rw [h]; rfl
+
+/-- rejection on one side iff on the other -/
+theorem C14_rejected_iff (conv : Conv) (s : Schema) (items : List Item) (ovs : List OptItem)
+    (hidem : KeyIdemOn conv s) (hcan : tyCanon s items = true) (hovs : OvsOK ovs) :
+    (∃ e, loadTreeOv conv s items ovs = .error e) ↔
+      ((∃ r, edit conv s items ovs = .error r) ∨
+       ∃ items' e, edit conv s items ovs = .ok items' ∧ loadTree conv s items' = .error e) := by
+  obtain ⟨h1, h2⟩ := C14_override_eq_edit conv s items ovs hidem hcan hovs
+  constructor
+  · rintro ⟨e, he⟩
+    cases hed : edit conv s items ovs with
+    | error r => exact Or.inl ⟨r, rfl⟩
+    | ok items' => exact Or.inr ⟨items', e, rfl, by rw [← h1 items' hed]; exact he⟩
+  · rintro (⟨r, hr⟩ | ⟨items', e, hed, he⟩)
+    · exact h2 r hr
+    · exact ⟨e, by rw [h1 items' hed]; exact he⟩
+
+/-- no overrides: nothing is edited, and the loader is the plain loader -/
+theorem C14_no_overrides (conv : Conv) (s : Schema) (items : List Item) :
+    edit conv s items [] = .ok items ∧ loadTreeOv conv s items [] = loadTree conv s items :=
+  ⟨editBody_nil conv s true s.top.keytype items, loadTreeOv_nil conv s items⟩
+
+/-- the edited tree spells its headers as the original tree does (so C01/C02 apply to it) -/
+theorem C14_edit_tyCanon (conv : Conv) (s : Schema) (items items' : List Item) (ovs : List OptItem)
+    (hcan : tyCanon s items = true) (h : edit conv s items ovs = .ok items') : tyCanon s items' = true :=
+  editBody_tyCanon conv s true s.top.keytype items ovs items' hcan h
+
+/-- **With overrides the loader returns exactly what the schema defines for the edited text** (`denote`, C02), and
+    it returns a configuration iff the edit is possible and the edited text conforms (C01). -/
+theorem C14_override_denote (conv : Conv) (s : Schema) (items : List Item) (ovs : List OptItem)
+    (hs : schemaOK s = true) (hidem : KeyIdemOn conv s) (hcan : tyCanon s items = true) (hovs : OvsOK ovs) :
+    (loadTreeOv conv s items ovs).toOption = (edit conv s items ovs).toOption.bind (denote conv s) := by
+  rw [C14_override_eq_edit_outcome conv s items ovs hidem hcan hovs]
+  cases he : edit conv s items ovs with
+  | error r => rfl
+  | ok items' =>
+    show (loadTree conv s items').toOption = denote conv s items'
+    exact loadTree_eq_denote conv s items' hs (C14_edit_tyCanon conv s items items' ovs hcan he)
+
+/-- **The same for configuration TEXT.**  For every text without `%import` (lines, `%define`s, `%include`s of any
+    depth, through the parser model) and every list of specifiers: the configuration returned by
+    `loadConfigFile(schema, text, overrides=specs)` is the configuration returned for the tree of the text edited as
+    the (split) specifiers ask, and there is none iff a specifier is refused, the parser rejects the text, the edit is
+    impossible or the edited tree is rejected.  `hlow`, `hkeys`: facts about the generated Unicode table and the schema's
+    type names checked by the translator. -/
+theorem C14_text_override_eq_edit (conv : Conv) (env : Env) (pkgs : Str → Pkg) (s : Schema) (url : Option Str)
+    (lines : List Str) (specs : List Str)
+    (hs : schemaOK s = true) (hlow : ∀ x : Str, lower (lower x) = lower x) (hkeys : ∀ p ∈ s.types, lower p.1 = p.1)
+    (hidem : KeyIdemOn conv s)
+    (hni : ∀ l ∈ lines, NoImportLine l) (hres : ∀ u ls, env.res u = some ls → ∀ l ∈ ls, NoImportLine l)
+    (hovs : ∀ ovs, specs.mapM addOption = .ok ovs → OvsOK ovs) :
+    (load conv env pkgs s url lines specs).toOption.map (·.value) =
+      (specs.mapM addOption).toOption.bind fun ovs =>
+        (treeOf env url lines).toOption.bind fun items =>
+          (edit conv s items ovs).toOption.bind fun items' => (loadTree conv s items').toOption := by
+  rw [load_eq_loadTreeOv conv env pkgs s url lines specs hni hres]
+  cases hsp : specs.mapM addOption with
+  | error e => rfl
+  | ok ovs =>
+    cases ht : treeOf env url lines with
+    | error e => rfl
+    | ok items =>
+      have hcan := treeOf_tyCanon env url lines s items hs hlow hkeys ht
+      exact C14_override_eq_edit_outcome conv s items ovs hidem hcan (hovs ovs hsp)
+
+/-- the tree-driven loader with overrides is the text-driven one: for a text without `%import`, loading the lines with
+    the specifiers = splitting the specifiers, building the tree, loading the tree with the overrides -/
+theorem C14_text_eq_tree (conv : Conv) (env : Env) (pkgs : Str → Pkg) (s : Schema) (url : Option Str) (lines : List Str)
+    (specs : List Str)
+    (hni : ∀ l ∈ lines, NoImportLine l) (hres : ∀ u ls, env.res u = some ls → ∀ l ∈ ls, NoImportLine l) :
+    (load conv env pkgs s url lines specs).toOption.map (·.value) =
+      (specs.mapM addOption).toOption.bind fun ovs =>
+        (treeOf env url lines).toOption.bind fun items => (loadTreeOv conv s items ovs).toOption :=
+  load_eq_loadTreeOv conv env pkgs s url lines specs hni hres
+
+/-! ### the stock key types are idempotent -/
+
+/-- a schema whose key types are among `basic-key`, `identifier` and `string` (with the stock datatype functions)
+    satisfies the idempotence hypothesis -/
+theorem C14_keyIdem_stock (s : Schema)
+    (h : ∀ t, InSchema s t → String.ofList t.keytype = "basic-key" ∨ String.ofList t.keytype = "identifier" ∨
+      String.ofList t.keytype = "string") : KeyIdemOn stockConv s := by
+  intro t ht k r hk
+  show stockKey t.keytype r = .ok r
+  change stockKey t.keytype k = .ok r at hk
+  unfold stockKey at hk ⊢
+  rcases h t ht with h1 | h1 | h1
+  · rw [h1] at hk ⊢
+    exact DT.basicKey_idempotent k r hk
+  · rw [h1] at hk ⊢
+    exact DT.identifier_idempotent k r hk
+  · rw [h1] at hk ⊢
+    rfl
+
+/-! ### corollaries -/
+
+/-- **Verbatim.**  A single top-level override `k=text`: the loader behaves as on the text in which every line for
+    key `k` is dropped and the line `k text` is added, where `text` is everything after the first `=` of the specifier,
+    character for character.  (Lines of a tree hold values AFTER the parser's `$`-expansion; the tree loader hands the
+    value of a line to the datatype function unchanged, so no expansion is applied to `text`.) -/
+theorem C14_verbatim (conv : Conv) (s : Schema) (items : List Item) (spec k n : Str)
+    (hidem : KeyIdemOn conv s) (hcan : tyCanon s items = true)
+    (heq : spec.contains '=' = true) (hpath : addOption.splitOn (spec.takeWhile (· != '=')) '/' = [k]) (hk0 : k ≠ [])
+    (hk : conv.key s.top.keytype k = .ok n) :
+    addOption spec = .ok { path := [k], val := (spec.dropWhile (· != '=')).drop 1 } ∧
+    loadTreeOv conv s items [{ path := [k], val := (spec.dropWhile (· != '=')).drop 1 }] =
+      loadTree conv s (items.filter (keptItem (conv.key s.top.keytype) [n]) ++
+        [.kv k ((spec.dropWhile (· != '=')).drop 1) cmdPos]) := by
+  constructor
+  · have := C14_wellformed_accepted spec heq (by rw [hpath]; simp [hk0])
+    rw [hpath] at this
+    exact this
+  · have hovs : OvsOK [{ path := [k], val := (spec.dropWhile (· != '=')).drop 1 }] := by
+      intro o ho c hc
+      simp only [List.mem_singleton] at ho
+      subst ho
+      simp at hc
+    apply (C14_override_eq_edit conv s items _ hidem hcan hovs).1
+    unfold edit editBody
+    rw [splitOvs]
+    simp only [hk]
+    rw [splitOvs]
+    simp only
+    rw [editItems_nopend]
+    rfl
+
+/-- a single top-level override whose value contains `$`: the `$` reaches the datatype function -/
+example : loadTreeOv
+      { key := fun _ k => .ok k, val := fun _ v => .ok (.str v), sect := fun _ v => .ok v }
+      { types := [], handler := none, components := [],
+        top := { name := none, keytype := [], datatype := [],
+                 children := [(some ['k'], .key { name := ['k'], attr := ['k'], multi := false, minOccurs := 0, dt := [],
+                                                  dflt := .none, handler := none })] } }
+      [.kv ['k'] ['o', 'l', 'd'] ⟨1, none⟩] [{ path := [['k']], val := ['$', 'x'] }] =
+    .ok (.sect [] none [(['k'], .str ['$', 'x'])]) := by rfl
+
+/-- **Unknown section.**  An override that goes below the top level while its first component selects no top-level
+    section of the text is rejected (in the code: "not all command line options were consumed", unless something else
+    fails first).  At any depth: `C14_override_eq_edit`, second part, with `Reject.unknownSection`. -/
+theorem C14_unknown_section_rejected (conv : Conv) (s : Schema) (items : List Item) (ovs : List OptItem) (o : OptItem)
+    (hcan : tyCanon s items = true) (hovs : OvsOK ovs) (ho : o ∈ ovs) (ho2 : 2 ≤ o.path.length)
+    (hno : ∀ ty nm sub, Item.sect ty nm sub ∈ items → addresses o ty nm = false) :
+    ∃ e, loadTreeOv conv s items ovs = .error e := by
+  obtain ⟨r, hr⟩ := editBody_unknown_section conv s false s.top.keytype items ovs o ho ho2 hno
+  exact (C14_override_eq_editNorm conv s items ovs hcan hovs).2 r hr
+
+/-- **Key not allowed.**  A top-level override `k=v` whose key — as the loader finally looks it up: normalised by the
+    key type, `n`, and normalised once more — is refused by the key type or is neither a declared key nor captured by a
+    wildcard key (`keyRejected`) is rejected.  Below the top level: `C14_override_denote` (the edited text has a key
+    line its section does not allow, hence does not conform). -/
+theorem C14_key_not_allowed_rejected (conv : Conv) (s : Schema) (items : List Item) (ovs : List OptItem) (o : OptItem)
+    (k n : Str) (hcan : tyCanon s items = true) (hovs : OvsOK ovs) (ho : o ∈ ovs) (hp : o.path = [k])
+    (hk : conv.key s.top.keytype k = .ok n) (hrej : keyRejected conv s.top n) :
+    ∃ e, loadTreeOv conv s items ovs = .error e := by
+  obtain ⟨h1, h2⟩ := C14_override_eq_editNorm conv s items ovs hcan hovs
+  cases hed : editNorm conv s items ovs with
+  | error r => exact h2 r hed
+  | ok items' =>
+    rw [h1 items' hed, loadTree_evalB]
+    obtain ⟨ks, ss, is, hs1, _, rfl⟩ := editBody_ok conv s false s.top.keytype items ovs items' hed
+    have hx := splitOvs_mem_ks (conv.key s.top.keytype) o k n hp hk ovs ks ss ho hs1
+    have hm := newLines_mem false ks _ hx
+    obtain ⟨e, he⟩ := evalItemsB_rejects conv s n o.val cmdPos (is ++ newLines false (groupsOf ks))
+      (newMatcher s.top none none) rfl (List.mem_append_right _ hm) hrej
+    exact ⟨e, by rw [he]; rfl⟩
+
+/-- **Unconvertible value.**  The errors of a load with overrides are the errors of the edited text
+    (`C14_override_eq_edit`: equality of outcomes including the error), whose supplied lines carry the override value and
+    the position `cmdPos`; and a value with that position which its datatype refuses with `ValueError` is reported as
+    a `DataConversionError` (kind `.conversion`, not an internal error) at line -1 of `<command-line option>` carrying
+    the value.  (When the parser closes the section in which this happens it replaces a negative line by the line it is
+    at; class, url and value stay.) -/
+theorem C14_bad_value_is_conversion_error (conv : Conv) (dt v : Str) (h : conv.val dt v = .error .valueError) :
+    convVI conv dt { value := v, pos := cmdPos } =
+      .error (.cfg { kind := .conversion, line := some (-1), url := some "<command-line option>".toList,
+                     tag := "value", value := some v }) := by
+  unfold convVI
+  rw [h]
+  rfl
+
+/-- an override key that the key type of the document refuses with `ValueError` (first in the list) is reported as a
+    `DataConversionError` carrying the key, at line -1 of `<command-line option>` — before the text is looked at -/
+theorem C14_bad_key_is_conversion_error (conv : Conv) (s : Schema) (items : List Item) (k v : Str) (rest : List OptItem)
+    (h : conv.key s.top.keytype k = .error .valueError) :
+    loadTreeOv conv s items ({ path := [k], val := v } :: rest) =
+      .error (.cfg { kind := .conversion, line := some (-1), url := some "<command-line option>".toList,
+                     tag := "override key", value := some k }) := by
+  unfold loadTreeOv bagOf
+  rw [mkBag_eq_fold, List.foldlM_cons]
+  simp only [mkBagStep, h]
+  rfl
+
+/-- when the edit is possible, an error of the load with overrides IS the error of the edited text -/
+theorem C14_error_eq_edit_error (conv : Conv) (s : Schema) (items items' : List Item) (ovs : List OptItem)
+    (hidem : KeyIdemOn conv s) (hcan : tyCanon s items = true) (hovs : OvsOK ovs)
+    (hed : edit conv s items ovs = .ok items') (e : Fail) :
+    loadTreeOv conv s items ovs = .error e ↔ loadTree conv s items' = .error e := by
+  rw [(C14_override_eq_edit conv s items ovs hidem hcan hovs).1 items' hed]
+
+/-- an override with an unconvertible value, end to end on a one-key schema: conversion error, line -1 -/
+example : loadTreeOv
+      { key := fun _ k => .ok k, val := fun _ v => if v == ['b'] then .error .valueError else .ok (.str v),
+        sect := fun _ v => .ok v }
+      { types := [], handler := none, components := [],
+        top := { name := none, keytype := [], datatype := [],
+                 children := [(some ['k'], .key { name := ['k'], attr := ['k'], multi := false, minOccurs := 0, dt := [],
+                                                  dflt := .none, handler := none })] } }
+      [.kv ['k'] ['o', 'l', 'd'] ⟨1, none⟩] [{ path := [['k']], val := ['b'] }] =
+    .error (.cfg { kind := .conversion, line := some (-1), url := some "<command-line option>".toList,
+                   tag := "value", value := some ['b'] }) := by rfl
+
+/-- **Component that is not a basic key.**  An override with a section component (any component but the last, at
+    any depth) that the `basic-key` datatype refuses — for instance `1st/key=v`, `a/b:c/key=v` — makes the load fail,
+    whatever the text, even when a section is NAMED `1st` or `b:c`.  (In the code: `OptionBag.get_section_info` converts
+    the first component of every pending override with `basic-key` before comparing names, raising a
+    `ConfigurationSyntaxError` at the first sub-section opened; if none is opened the override is left over and
+    `OptionBag.finish` refuses it.)  This is exactly the case `OvsOK` excludes from the edit equivalence. -/
+theorem C14_nonident_component_rejected (conv : Conv) (s : Schema) (items : List Item) (ovs : List OptItem) (o : OptItem)
+    (ho : o ∈ ovs) (c : Str) (hc : c ∈ o.path.dropLast) (e0 : ConvErr) (hbk : DT.basicKey c = .error e0) :
+    ∃ e, loadTreeOv conv s items ovs = .error e :=
+  loadTreeOv_badOv conv s items ovs o ho ⟨c, hc, e0, hbk⟩
+
+/-- so the edit equivalence covers every list of overrides that is not rejected outright: a list violating `OvsOK` is
+    rejected whatever the text -/
+theorem C14_not_ovsOK_rejected (conv : Conv) (s : Schema) (items : List Item) (ovs : List OptItem) (h : ¬ OvsOK ovs) :
+    ∃ e, loadTreeOv conv s items ovs = .error e := by
+  by_cases hb : ∃ o, o ∈ ovs ∧ BadOv o
+  · obtain ⟨o, ho, hbad⟩ := hb
+    exact loadTreeOv_badOv conv s items ovs o ho hbad
+  · exfalso
+    apply h
+    intro o ho c hc
+    cases hk : DT.basicKey c with
+    | ok r => exact ⟨r, rfl⟩
+    | error e => exact absurd ⟨o, ho, c, hc, e, hk⟩ hb
+
+/-! ### the idempotence hypothesis is needed for the key as typed -/
+
+/-- a key type that is not idempotent: it prefixes `x` -/
+def convX : Conv := { key := fun _ k => .ok ('x' :: k), val := fun _ v => .ok (.str v), sect := fun _ v => .ok v }
+/-- a single-valued key named `n` -/
+def keyX (n : Str) : Option Str × Info :=
+  (some n, .key { name := n, attr := n, multi := false, minOccurs := 0, dt := [], dflt := .none, handler := none })
+/-- a schema with the two keys `xk` and `xxk` -/
+def schX : Schema :=
+  { types := [], handler := none, components := [],
+    top := { name := none, keytype := [], datatype := [], children := [keyX ['x', 'k'], keyX ['x', 'x', 'k']] } }
+
+/-- With a key type that is not idempotent the override `k=v` does NOT act like the added line `k v`: the line sets
+    `xk` (key type applied once), the override sets `xxk` (key type applied twice: `OptionBag.__init__`, then
+    `BaseMatcher.addValue` called from `finish_optionbag`).  So `KeyIdemOn` in `C14_override_eq_edit` cannot be dropped;
+    `C14_override_eq_editNorm` needs no such hypothesis because there the supplied line carries the key already
+    normalised once. -/
+theorem C14_key_as_given_needs_idempotence :
+    ∃ (conv : Conv) (s : Schema) (items : List Item) (ovs : List OptItem) (items' : List Item),
+      tyCanon s items = true ∧ OvsOK ovs ∧ edit conv s items ovs = .ok items' ∧
+      loadTreeOv conv s items ovs ≠ loadTree conv s items' := by
+  refine ⟨convX, schX, [], [{ path := [['k']], val := ['v'] }], [.kv ['k'] ['v'] cmdPos], tyCanon_nil _, ?_, rfl, ?_⟩
+  · intro o ho c hc
+    simp only [List.mem_singleton] at ho
+    subst ho
+    simp at hc
+  · have h1 : loadTreeOv convX schX [] [{ path := [['k']], val := ['v'] }] =
+        .ok (.sect [] none [(['x', 'k'], .none), (['x', 'x', 'k'], .str ['v'])]) := rfl
+    have h2 : loadTree convX schX [.kv ['k'] ['v'] cmdPos] =
+        .ok (.sect [] none [(['x', 'k'], .str ['v']), (['x', 'x', 'k'], .none)]) := rfl
+    rw [h1, h2]
+    intro h
+    cases h
+
+/-! ### a non-trivial instance of the hypotheses of the main theorems -/
+
+namespace Ex
+
+/-- datatype functions for the example: keys are lower-cased (ASCII), values kept as text -/
+def conv1 : Conv := { key := fun _ k => .ok (asciiLower k), val := fun _ v => .ok (.str v), sect := fun _ v => .ok v }
+
+/-- section type `sect` with a multikey `k` -/
+def tS : SType :=
+  { name := some "sect".toList, keytype := [], datatype := [],
+    children := [(some ['k'], .key { name := ['k'], attr := ['k'], multi := true, minOccurs := 0, dt := [],
+                                     dflt := .many [], handler := none })] }
+/-- a schema with any number of named sections of type `sect` -/
+def sch1 : Schema :=
+  { types := [("sect".toList, .concrete tS)], handler := none, components := [],
+    top := { name := none, keytype := [], datatype := [],
+             children := [(none, .sect { name := ['+'], attr := "sects".toList, multi := true, minOccurs := 0,
+                                         ty := "sect".toList, handler := none })] } }
+/-- `<sect a> k 1 </sect> <sect b> k 2 </sect>` -/
+def items1 : List Item :=
+  [.sect "sect".toList (some ['a']) [.kv ['k'] ['1'] ⟨2, none⟩],
+   .sect "sect".toList (some ['b']) [.kv ['k'] ['2'] ⟨5, none⟩]]
+/-- `B/k=x sect/k=y Sect/K=z`: by name in mixed case; by type (first `sect` section); by type and key in mixed case -/
+def ovs1 : List OptItem :=
+  [{ path := [['B'], ['k']], val := ['x'] }, { path := ["sect".toList, ['k']], val := ['y'] },
+   { path := ["Sect".toList, ['K']], val := ['z'] }]
+
+/-- the instance satisfies the hypotheses of the main theorems -/
+theorem sch1_ok : schemaOK sch1 = true := by decide
+theorem items1_canon : tyCanon sch1 items1 = true := by
+  simp only [items1, tyCanon_sect, tyCanon_nil, tyCanon, hdrOK]
+  decide
+theorem ovs1_ok : OvsOK ovs1 := by
+  intro o ho c hc
+  simp only [ovs1, List.mem_cons, List.not_mem_nil, or_false] at ho
+  rcases ho with rfl | rfl | rfl <;> simp only [List.dropLast, List.mem_cons, List.not_mem_nil, or_false] at hc <;> subst hc <;>
+    exact ⟨_, by rw [DT.basicKey_eq_spec]; rfl⟩
+theorem conv1_idem : KeyIdemOn conv1 sch1 := by
+  intro t _ k r hk
+  cases hk
+  show Except.ok (asciiLower (asciiLower k)) = _
+  rw [DT.asciiLower_idem]
+
+/-- the edit: both `sect/…` overrides go to the FIRST section of type `sect`, grouped under the key `k`; the file
+    values of the overridden key are dropped -/
+theorem edit1 : edit conv1 sch1 items1 ovs1 =
+    .ok [.sect "sect".toList (some ['a']) [.kv ['k'] ['y'] cmdPos, .kv ['K'] ['z'] cmdPos],
+         .sect "sect".toList (some ['b']) [.kv ['k'] ['x'] cmdPos]] := by rfl
+
+/-- the hypotheses of `C14_override_eq_edit` / `C14_override_denote` hold for this instance, and the theorem yields the
+    configuration loaded with the overrides -/
+example : (loadTreeOv conv1 sch1 items1 ovs1).toOption =
+    some (.sect [] none [("sects".toList, .list
+      [.sect "sect".toList (some ['a']) [(['k'], .list [.str ['y'], .str ['z']])],
+       .sect "sect".toList (some ['b']) [(['k'], .list [.str ['x']])]])]) := by
+  rw [C14_override_denote conv1 sch1 items1 ovs1 sch1_ok conv1_idem items1_canon ovs1_ok, edit1]
+  rfl
+
+/-- an override addressing a section that is not there: the edit is impossible -/
+example : edit conv1 sch1 items1 [{ path := [['c'], ['k']], val := ['x'] }] = .error (.unknownSection ['c']) := by rfl
+
+/-- the hypotheses of `C14_unknown_section_rejected` hold for that override -/
+example : ∀ ty nm sub, Item.sect ty nm sub ∈ items1 →
+    addresses { path := [['c'], ['k']], val := ['x'] } ty nm = false := by
+  intro ty nm sub h
+  simp only [items1, List.mem_cons, List.not_mem_nil, or_false, Item.sect.injEq] at h
+  rcases h with ⟨rfl, rfl, _⟩ | ⟨rfl, rfl, _⟩ <;> rfl
+
+/-- the hypothesis of `C14_key_not_allowed_rejected` holds for the top-level override `z=…` (the schema has no
+    top-level key) -/
+example : conv1.key sch1.top.keytype ['Z'] = .ok ['z'] ∧ keyRejected conv1 sch1.top ['z'] := ⟨rfl, rfl⟩
+
+/-- the hypothesis of `C14_nonident_component_rejected` holds for the component `1a` -/
+example : DT.basicKey ['1', 'a'] = .error .valueError := by rw [DT.basicKey_eq_spec]; rfl
+
+end Ex
 
 end ZCV.Props.C14
